@@ -200,7 +200,8 @@ PROPS = {
     ),
     "C15": dict(
         domain="saveload", module="Props.C15",
-        theorems=["C15_history_invariant", "C15_invariant_empty", "C15_invariant_meaning", "C15_ids_unique",
+        theorems=["C15_history_invariant", "C15_batch_deletion_in_statement_order",
+                  "C15_batch_deletion_keeps_invariant", "C15_invariant_empty", "C15_invariant_meaning", "C15_ids_unique",
                   "C15_mapping_agrees", "C15_counter_above", "C15_mark_existing", "C15_mark_fresh", "C15_load_merges",
                   "C15_load_components", "C15_load_removes_absent", "C15_load_untouched", "C15_repeated_load",
                   "C15_stale_not_trusted", "C15_alloc_maintain_exact", "C15_nonfresh_id_refuted",
@@ -1222,6 +1223,20 @@ def replay(path):
         line = unwind_check.run_harness(common.build_harness(False), [h])[0]
         v = unwind_check.fault_event_violation(h, line)
         print(json.dumps(dict(history=unwind_gen.pretty(h), transcript=line, violation=v), indent=1))
+        common.cleanup_run_dir()
+        if v:
+            print("VIOLATION property=%s replay=%s" % (pid, path))
+            return 1
+        print("no violation on this history")
+        return 0
+    if obj.get("domain") == "unwind-lazy":
+        from . import unwind_check
+        import unwind_gen
+        h = unwind_gen.decode(obj["encoded"])
+        expect = [(e[0], (e[1], e[2]), e[3]) for e in obj["expect"]]
+        line = unwind_check.run_harness(common.build_harness(False), [h])[0]
+        v = unwind_check.lazy_after_fault_violation(h, expect, line)
+        print(json.dumps(dict(history=unwind_check.pretty_lazy(h), transcript=line, violation=v), indent=1))
         common.cleanup_run_dir()
         if v:
             print("VIOLATION property=%s replay=%s" % (pid, path))
